@@ -77,7 +77,11 @@ class MultiTaskBCD(BaseSolver):
                 opt = dist_fix_point_bcd(
                     W, grad, lipschitz, datafit, penalty, all_feats
                 )
-            stop_crit = np.max(opt)
+            if self.fit_intercept:
+                intercept_opt = np.max(np.abs(datafit.intercept_update_step(Y, XW)))
+            else:
+                intercept_opt = 0.
+            stop_crit = max(np.max(opt), intercept_opt)
             if _verif.ON:
                 _verif.emit("outer", t=t, stop_crit=stop_crit, w=W, Xw=XW)
             if self.verbose:
